@@ -44,6 +44,55 @@ pub fn gen_address_life(r: &mut Rng) -> String {
     format!("sim C17 {}", cmds.join(" ; "))
 }
 
+/// A dual-stack host: its A and AAAA records are learned on one interface, and more than a second
+/// later a cache-flush response carries the records of ONE family only (the same address again,
+/// or a new one).  The flush concerns records of the same name, TYPE and class: the other family
+/// stays - no AddressesRemoved for it, and a later search still lists it.
+pub fn gen_dual_stack_flush(r: &mut Rng) -> String {
+    use mdns_sd::verif::parser::{RDataView, RecDesc};
+    let mut cmds: Vec<String> = vec![format!("daemon {}", ifaces_of(0, false))];
+    cmds.push("ipint 0 100000".to_string());
+    let mut now = 1_000_000u64;
+    cmds.push(format!("run {}", now));
+    let host = *r.pick(&["dual.local.", "Dual-Stack.local."]);
+    cmds.push(format!("resolve 0 1 {} none", hx(host)));
+    cmds.push(format!("run {}", now));
+    let rec = |ty: u16, ip: &str, ttl: u32, flush: bool| RecDesc {
+        name: host.to_string(),
+        ty,
+        class: if flush { 0x8001 } else { 1 },
+        ttl,
+        rdata: RDataView::Addr { ip: ip.parse().unwrap(), if_name: "x".into(), if_index: 0 },
+    };
+    let ttl = *r.pick(&[120u32, 120, 30]);
+    let a = rec(1, "192.168.1.77", ttl, true);
+    let aaaa = rec(28, "fe80::7:20", ttl, true);
+    if r.chance(1, 2) {
+        cmds.push(format!("inject 0 2 1 192.168.1.50 5353 {}", response(&[a.clone(), aaaa.clone()], &[])));
+    } else {
+        cmds.push(format!("inject 0 2 1 192.168.1.50 5353 {}", response(&[a.clone()], &[])));
+        cmds.push(format!("inject 0 2 1 192.168.1.50 5353 {}", response(&[aaaa.clone()], &[])));
+    }
+    now += *r.pick(&[1100u64, 1500, 5000]);
+    cmds.push(format!("run {}", now));
+    for _ in 0..r.range(1, 2) {
+        let one = match r.below(4) {
+            0 => a.clone(),
+            1 => rec(1, "192.168.1.78", ttl, true), // the IPv4 address changed
+            2 => aaaa.clone(),
+            _ => rec(28, "fe80::7:21", ttl, true),
+        };
+        cmds.push(format!("inject 0 2 1 192.168.1.50 5353 {}", response(&[one], &[])));
+        now += *r.pick(&[900u64, 1500, 4000]);
+        cmds.push(format!("run {}", now));
+    }
+    // a second search (another letter case) is served from the cache
+    cmds.push(format!("resolve 0 2 {} none", hx(&host.to_ascii_uppercase().replace(".LOCAL.", ".local."))));
+    now += *r.pick(&[1000u64, 15_000]);
+    cmds.push(format!("run {}", now));
+    format!("sim C17 {}", cmds.join(" ; "))
+}
+
 pub fn generate_c17(r: &mut Rng, tier: &str, emit: &mut dyn FnMut(String)) {
     let n = if tier == "thorough" { 2000 } else { 200 };
     for i in 0..n {
@@ -53,6 +102,10 @@ pub fn generate_c17(r: &mut Rng, tier: &str, emit: &mut dyn FnMut(String)) {
         }
         if i % 8 == 6 {
             emit(crate::c13::gen_late_timeout(r, "C17"));
+            continue;
+        }
+        if i % 8 == 2 {
+            emit(gen_dual_stack_flush(r));
             continue;
         }
         if i % 4 == 3 {
